@@ -37,6 +37,7 @@ fn main() {
             "c10" => c10::run(&case),
             "c17lex" => c17::lex(&case),
             "lex" => lang::lex(&case),
+            "format" => lang::format(&case),
             "twolex" => lang::two_lexers(&case),
             "parse" => lang::parse(&case),
             "latin1file" => lang::latin1_file(&case),
